@@ -434,9 +434,9 @@ var reHigh = regexp.MustCompile(`<<"HIGHWATER", (\d+), (\d+)>>`)
 func validateTraces(c *core.Ctx, traces []*trace) error {
 	sort.Slice(traces, func(i, j int) bool { return traces[i].ID < traces[j].ID })
 	// a few JVMs side by side: TLC explains about two states per event, one BFS level each
-	chunk := (len(traces) + 2) / 3
-	if chunk < 120 {
-		chunk = 120
+	chunk := (len(traces) + 1) / 2
+	if chunk < 150 {
+		chunk = 150
 	}
 	if chunk > 1500 {
 		chunk = 1500
